@@ -295,7 +295,7 @@ def run_impl(binary, case_texts, ids, timeout=600):
     res = {}
     pending = list(ids)
     guard = 0
-    while pending and guard < 50:
+    while pending and guard < len(ids) + 10:
         guard += 1
         text = ''.join(case_texts[i] for i in pending)
         try:
@@ -310,6 +310,13 @@ def run_impl(binary, case_texts, ids, timeout=600):
         for c in done:
             res[c] = cases[c]
         if rc == 0 and len(done) == len(pending):
+            break
+        dl = bool(done) and any(l.startswith('DEADLOCK') for l in cases[done[-1]])
+        if dl and len(done) < len(pending):
+            # the scheduler harness ends the process after reporting a deadlock: go on with the rest
+            pending = pending[pending.index(done[-1]) + 1:]
+            continue
+        if dl and len(done) == len(pending):
             break
         # find the first case not completed
         bad = None
